@@ -518,12 +518,13 @@ Proof. vm_compute. repeat split; reflexivity. Qed.
 From Coq Require String.
 From CC Require Base.MeasureExp Base.PairExp Base.PairCtlExp Model.PairwiseP Gen.PairwiseSrc Proofs.PairwisePProofs
      Proofs.GenAgreePairTac Proofs.GenAgreePairwise Proofs.GenAgreePairwiseMeans
-     Proofs.GenAgreePairwiseOverlap Proofs.GenAgreePairwiseLegacy Proofs.GenAgreePairwiseCtl.
+     Proofs.GenAgreePairwiseOverlap Proofs.GenAgreePairwiseLegacy Proofs.GenAgreePairwiseCtl
+     Model.PairwiseLegacy Proofs.GenAgreePairwiseLegacy2.
 Section GenAgreePairwise_C13.   (* scopes and imports below end with the section *)
 Import Coq.Strings.String CC.Base.MeasureExp CC.Base.PairExp CC.Base.PairCtlExp CC.Model.PairwiseP CC.Gen.PairwiseSrc
        CC.Proofs.PairwisePProofs CC.Proofs.GenAgreePairTac CC.Proofs.GenAgreePairwise
        CC.Proofs.GenAgreePairwiseMeans CC.Proofs.GenAgreePairwiseOverlap CC.Proofs.GenAgreePairwiseLegacy
-       CC.Proofs.GenAgreePairwiseCtl.
+       CC.Proofs.GenAgreePairwiseCtl CC.Model.PairwiseLegacy CC.Proofs.GenAgreePairwiseLegacy2.
 Import Coq.Lists.List.ListNotations CC.Base.XQ.
 Local Close Scope Q_scope.
 Local Open Scope string_scope.
@@ -829,10 +830,10 @@ Print Assumptions C13_gen_overlap_helper_p_vals.
 
 Theorem C13_gen_overlap_t_stats_for_subvar :
   match src_PairwiseSigTStatsForSubvar_t_stats with
-  | Some e => forall nr nc nrs ncs a blk c3 cdf,
+  | Some e => forall nr nc nrs ncs a blk c3 ovr cdf,
       ov_shaped blk c3 nr nc -> a < nc ->
-      pagrees_mat (penv_ov nr nc nrs ncs (Z.of_nat a) blk c3 cdf)
-                  (pev true (penv_ov nr nc nrs ncs (Z.of_nat a) blk c3 cdf) e) DR DC
+      pagrees_mat (penv_ov nr nc nrs ncs (Z.of_nat a) blk c3 ovr cdf)
+                  (pev true (penv_ov nr nc nrs ncs (Z.of_nat a) blk c3 ovr cdf) e) DR DC
                   (mnth (ov_tblock a (blk "column_proportions" 0 0)
                                    (c3 "cube_overlaps" "selected_bases") (c3 "cube_overlaps" "valid_bases")))
   | None => True
@@ -842,16 +843,38 @@ Print Assumptions C13_gen_overlap_t_stats_for_subvar.
 
 Theorem C13_gen_overlap_p_vals_for_subvar :
   match src_PairwiseSigPValsForSubvar_p_vals with
-  | Some e => forall nr nc nrs ncs a blk c3 cdf,
+  | Some e => forall nr nc nrs ncs a blk c3 ovr cdf,
       ov_shaped blk c3 nr nc -> a < nc ->
-      pagrees_mat (penv_ov nr nc nrs ncs (Z.of_nat a) blk c3 cdf)
-                  (pev false (penv_ov nr nc nrs ncs (Z.of_nat a) blk c3 cdf) e) DR DC
+      pagrees_mat (penv_ov nr nc nrs ncs (Z.of_nat a) blk c3 ovr cdf)
+                  (pev false (penv_ov nr nc nrs ncs (Z.of_nat a) blk c3 ovr cdf) e) DR DC
                   (mnth (ov_pblock cdf a (blk "column_proportions" 0 0)
                                    (c3 "cube_overlaps" "selected_bases") (c3 "cube_overlaps" "valid_bases")))
   | None => True
   end.
 Proof. exact gen_PairwiseSigPValsForSubvar_p_vals. Qed.
 Print Assumptions C13_gen_overlap_p_vals_for_subvar.
+
+Theorem C13_gen_overlap_inserted_rows_for_subvar :
+  (match src_PairwiseSigTStatsForSubvar__hs_t_stats with
+  | Some e => forall nr nc nrs ncs a blk c3 ovr cdf,
+      ov_shaped blk c3 nr nc -> 0 < nr -> hs_shaped blk ovr nrs nc -> a < nc ->
+      pagrees_mat (penv_ov nr nc nrs ncs (Z.of_nat a) blk c3 ovr cdf)
+                  (pev true (penv_ov nr nc nrs ncs (Z.of_nat a) blk c3 ovr cdf) e) DRS DC
+                  (mnth (ov_tblock a (blk "column_proportions" 1 0)
+                                   (ovr "cube_overlaps" "selected_bases") (ovr "cube_overlaps" "valid_bases")))
+  | None => True
+  end) /\
+  (match src_PairwiseSigPValsForSubvar__hs_p_vals with
+  | Some e => forall nr nc nrs ncs a blk c3 ovr cdf,
+      ov_shaped blk c3 nr nc -> 0 < nr -> hs_shaped blk ovr nrs nc -> a < nc ->
+      pagrees_mat (penv_ov nr nc nrs ncs (Z.of_nat a) blk c3 ovr cdf)
+                  (pev false (penv_ov nr nc nrs ncs (Z.of_nat a) blk c3 ovr cdf) e) DRS DC
+                  (mnth (ov_pblock cdf a (blk "column_proportions" 1 0)
+                                   (ovr "cube_overlaps" "selected_bases") (ovr "cube_overlaps" "valid_bases")))
+  | None => True
+  end).
+Proof. exact (conj gen_PairwiseSigTStatsForSubvar__hs_t_stats gen_PairwiseSigPValsForSubvar__hs_p_vals). Qed.
+Print Assumptions C13_gen_overlap_inserted_rows_for_subvar.
 
 Theorem C13_gen_legacy_t_stats :
   match src_Legacy_t_stats with
@@ -865,6 +888,133 @@ Theorem C13_gen_legacy_t_stats :
   end.
 Proof. exact gen_Legacy_t_stats. Qed.
 Print Assumptions C13_gen_legacy_t_stats.
+
+Theorem C13_gen_legacy_summary_t_stats :
+  match src_Legacy_summary_t_stats with
+  | Some e => forall nr nc c cb per_col tm tmv flag cdf alpha,
+      List.length cb = nc -> c < nc ->
+      pagrees_vec (penv_leg nr nc c (summ_slice cb per_col tm tmv) flag cdf alpha)
+                  (pev true (penv_leg nr nc c (summ_slice cb per_col tm tmv) flag cdf alpha) e) DC
+                  (vnth (summary_t cb (tm_fun per_col tm tmv) c))
+  | None => True
+  end.
+Proof. exact gen_Legacy_summary_t_stats. Qed.
+Print Assumptions C13_gen_legacy_summary_t_stats.
+
+Theorem C13_gen_legacy_df :
+  (match src_Legacy__df with
+  | Some e => forall nr nc c cb per_col tm tmv flag cdf alpha,
+      List.length cb = nc -> c < nc ->
+      pagrees_vec (penv_leg nr nc c (summ_slice cb per_col tm tmv) flag cdf alpha)
+                  (pev false (penv_leg nr nc c (summ_slice cb per_col tm tmv) flag cdf alpha) e) DC
+                  (vnth (summary_df cb c))
+  | None => True
+  end) /\
+  (match src_Legacy__df with
+  | Some e => forall nr nc c CB flag cdf alpha,
+      shaped CB nr nc -> c < nc ->
+      pagrees_mat (penv_leg nr nc c (summ_slice_mat CB) flag cdf alpha)
+                  (pev false (penv_leg nr nc c (summ_slice_mat CB) flag cdf alpha) e) DR DC
+                  (mnth (summary_df_mat CB c))
+  | None => True
+  end).
+Proof. exact (conj gen_Legacy__df gen_Legacy__df_mat). Qed.
+Print Assumptions C13_gen_legacy_df.
+
+Theorem C13_gen_legacy_summary_p_vals :
+  match src_Legacy_summary_p_vals with
+  | Some e => forall nr nc c cb per_col tm tmv flag cdf alpha,
+      List.length cb = nc -> c < nc ->
+      pagrees_vec (penv_leg nr nc c (summ_slice cb per_col tm tmv) flag cdf alpha)
+                  (pev false (penv_leg nr nc c (summ_slice cb per_col tm tmv) flag cdf alpha) e) DC
+                  (vnth (summary_p cdf cb (tm_fun per_col tm tmv) c))
+  | None => True
+  end.
+Proof. exact gen_Legacy_summary_p_vals. Qed.
+Print Assumptions C13_gen_legacy_summary_p_vals.
+
+Theorem C13_gen_legacy_summary_pairwise_indices :
+  match src_Legacy_summary_pairwise_indices with
+  | Some b => forall nr nc c cb per_col tm tmv flag cdf alpha,
+      List.length cb = nc -> c < nc ->
+      where1 (penv_leg nr nc c (summ_slice cb per_col tm tmv) flag cdf alpha)
+             (bvev (penv_leg nr nc c (summ_slice cb per_col tm tmv) flag cdf alpha) b) =
+      Some (legacy_where alpha (flag "only_larger")
+                         (vnth (summary_p cdf cb (tm_fun per_col tm tmv) c))
+                         (vnth (summary_t cb (tm_fun per_col tm tmv) c)) nc)
+  | None => True
+  end.
+Proof. exact gen_Legacy_summary_pairwise_indices. Qed.
+Print Assumptions C13_gen_legacy_summary_pairwise_indices.
+
+Theorem C13_gen_legacy_t_stats_scale_means :
+  match src_Legacy_t_stats_scale_means with
+  | Some e => forall nr nc c means vars nv M flag cdf alpha,
+      List.length means = nc -> c < nc ->
+      pagrees_vec (penv_leg nr nc c (scale_slice means vars nv M) flag cdf alpha)
+                  (pev true (penv_leg nr nc c (scale_slice means vars nv M) flag cdf alpha) e) DC
+                  (vnth (scale_t means vars (valid_counts nv M nr) c))
+  | None => True
+  end.
+Proof. exact gen_Legacy_t_stats_scale_means. Qed.
+Print Assumptions C13_gen_legacy_t_stats_scale_means.
+
+Theorem C13_gen_legacy_two_sample_df :
+  match src_Legacy__two_sample_df with
+  | Some e => forall nr nc c means vars nv M flag cdf alpha,
+      c < nc ->
+      pagrees_vec (penv_leg nr nc c (scale_slice means vars nv M) flag cdf alpha)
+                  (pev false (penv_leg nr nc c (scale_slice means vars nv M) flag cdf alpha) e) DC
+                  (vnth (scale_dfs nc (valid_counts nv M nr) c))
+  | None => True
+  end.
+Proof. exact gen_Legacy__two_sample_df. Qed.
+Print Assumptions C13_gen_legacy_two_sample_df.
+
+Theorem C13_gen_legacy_p_vals_scale_means :
+  match src_Legacy_p_vals_scale_means with
+  | Some e => forall nr nc c means vars nv M flag cdf alpha,
+      List.length means = nc -> c < nc ->
+      pagrees_vec (penv_leg nr nc c (scale_slice means vars nv M) flag cdf alpha)
+                  (pev false (penv_leg nr nc c (scale_slice means vars nv M) flag cdf alpha) e) DC
+                  (vnth (scale_p cdf means vars (valid_counts nv M nr) c))
+  | None => True
+  end.
+Proof. exact gen_Legacy_p_vals_scale_means. Qed.
+Print Assumptions C13_gen_legacy_p_vals_scale_means.
+
+Theorem C13_gen_legacy_scale_mean_pairwise_indices :
+  match src_Legacy_scale_mean_pairwise_indices with
+  | Some b => forall nr nc c means vars nv M flag cdf alpha,
+      List.length means = nc -> c < nc ->
+      where1 (penv_leg nr nc c (scale_slice means vars nv M) flag cdf alpha)
+             (bvev (penv_leg nr nc c (scale_slice means vars nv M) flag cdf alpha) b) =
+      Some (legacy_where alpha (flag "only_larger")
+                         (vnth (scale_p cdf means vars (valid_counts nv M nr) c))
+                         (vnth (scale_t means vars (valid_counts nv M nr) c)) nc)
+  | None => True
+  end.
+Proof. exact gen_Legacy_scale_mean_pairwise_indices. Qed.
+Print Assumptions C13_gen_legacy_scale_mean_pairwise_indices.
+
+Theorem C13_gen_legacy_per_column :
+  (match src_PairwiseSignificance__scale_mean_pairwise_indices with
+  | Some w => forall A (E : lwenv A),
+      lwev E w = Some (per_column (lw_ncols E) (lw_member E "scale_mean_pairwise_indices" col_args))
+  | None => True
+  end) /\
+  (match src_PairwiseSignificance_summary_pairwise_indices with
+  | Some w => forall A (E : lwenv A),
+      lwev E w = Some (per_column (lw_ncols E) (lw_member E "summary_pairwise_indices" col_args))
+  | None => True
+  end) /\
+  (match src_PairwiseSignificance_scale_mean_pairwise_indices with
+  | Some w => forall A (E : lwenv A),
+      lwev E w = Some (per_column (lw_ncols E) (lw_member E "scale_mean_pairwise_indices" col_args))
+  | None => True
+  end).
+Proof. exact (conj gen_PairwiseSignificance__scale_mean_pairwise_indices (conj gen_PairwiseSignificance_summary_pairwise_indices gen_PairwiseSignificance_scale_mean_pairwise_indices)). Qed.
+Print Assumptions C13_gen_legacy_per_column.
 
 Theorem C13_gen_pairwise_indices :
   match psrc_Slice__pairwise_indices with
@@ -1008,6 +1158,171 @@ Proof.
 Qed.
 
 End GenAgreePairwise_C13.
+
+(* ==== GenAgree (overlap bases): which planes of cube.overlaps / cube.valid_overlaps feed the overlap test ==== *)
+(* Gen/CubeCountsSrc.v (first translator) holds what matrix/cubemeasure.py says for _CatXMrOverlaps / _MrXMrOverlaps
+   .selected_bases / .valid_bases; Gen/PairwiseSrc.v what _BaseCubeOverlaps.factory says (class dispatch, what
+   each constructor field is bound to, the `is None` guards).  The theorems say it denotes Model/OverlapBases.v;
+   the cut [FSliced] is cls._slice_idx_expr, whose reading is C01_gen_slice_idx_expr ([slice_at]); meaning theorems
+   about the model (legacy tests and overlap bases) follow. *)
+From CC Require Base.Tensor Base.TensorTile Model.CubeCounts Model.OverlapBases Gen.CubeCountsSrc Gen.StripeCountsSrc Gen.Tables
+     Proofs.GenAgreeTac Proofs.GenAgreeOverlapBases Proofs.PairwiseLegacyProofs.
+Section GenAgreeOverlapBases_C13.   (* scopes and imports below end with the section *)
+Import Coq.Strings.String CC.Base.Tensor CC.Base.TensorTile CC.Model.CubeCounts CC.Model.OverlapBases CC.Model.PairwiseLegacy
+       CC.Gen.CubeCountsSrc CC.Gen.StripeCountsSrc CC.Gen.Tables CC.Gen.PairwiseSrc CC.Proofs.GenAgreeTac
+       CC.Proofs.GenAgreeOverlapBases CC.Proofs.PairwiseLegacyProofs.
+Import Coq.Lists.List.ListNotations CC.Base.XQ.
+Local Close Scope Q_scope.
+Local Open Scope string_scope.
+Local Open Scope nat_scope.
+
+Theorem C13_gen_overlap_bases_classes :
+  (match src_CatXMrOverlaps_selected_bases with
+  | Some e => forall O V nr ns sel,
+      agrees3 (teval_tile (env_ov (ov_shape false nr ns sel) O V) e) nr ns ns (selected_of O nr sel false)
+  | None => True
+  end) /\
+  (match src_CatXMrOverlaps_valid_bases with
+  | Some e => forall O V nr ns sel,
+      agrees3 (teval_tile (env_ov (ov_shape false nr ns sel) O V) e) nr ns ns (valid_of V nr sel false)
+  | None => True
+  end) /\
+  (match src_MrXMrOverlaps_selected_bases with
+  | Some e => forall O V nr ns sel,
+      agrees3 (teval_tile (env_ov (ov_shape true nr ns sel) O V) e) nr ns ns (selected_of O nr sel true)
+  | None => True
+  end) /\
+  (match src_MrXMrOverlaps_valid_bases with
+  | Some e => forall O V nr ns sel,
+      agrees3 (teval_tile (env_ov (ov_shape true nr ns sel) O V) e) nr ns ns (valid_of V nr sel true)
+  | None => True
+  end).
+Proof. exact (conj gen_CatXMrOverlaps_selected_bases (conj gen_CatXMrOverlaps_valid_bases (conj gen_MrXMrOverlaps_selected_bases gen_MrXMrOverlaps_valid_bases))). Qed.
+Print Assumptions C13_gen_overlap_bases_classes.
+
+Theorem C13_gen_overlaps_factory_binds :
+  binds_to src_CubeOverlaps_binds "_overlaps" (FSliced (FCube "overlaps")) /\
+  binds_to src_CubeOverlaps_binds "_valid_overlaps" (FSliced (FCube "valid_overlaps")) /\
+  match src_CubeOverlaps_guards with
+  | Some g => g = ["overlaps"; "valid_overlaps"]
+  | None => True
+  end.
+Proof. exact gen_overlaps_factory_binds. Qed.
+Print Assumptions C13_gen_overlaps_factory_binds.
+
+Theorem C13_gen_overlaps_factory_dispatch :
+  (match src_CubeOverlaps_dispatch with
+  | Some D => forall rmr cmr,
+      meth src_methods (cond_pick rmr cmr (fst D) (snd D)) "selected_bases"
+        (fun e => forall O V nr ns sel,
+           agrees3 (teval_tile (env_ov (ov_shape (rmr && cmr) nr ns sel) O V) e) nr ns ns
+                   (selected_of O nr sel (rmr && cmr)))
+  | None => True
+  end) /\
+  (match src_CubeOverlaps_dispatch with
+  | Some D => forall rmr cmr,
+      meth src_methods (cond_pick rmr cmr (fst D) (snd D)) "valid_bases"
+        (fun e => forall O V nr ns sel,
+           agrees3 (teval_tile (env_ov (ov_shape (rmr && cmr) nr ns sel) O V) e) nr ns ns
+                   (valid_of V nr sel (rmr && cmr)))
+  | None => True
+  end).
+Proof. exact (conj gen_dispatch_overlaps_selected gen_dispatch_overlaps_valid). Qed.
+Print Assumptions C13_gen_overlaps_factory_dispatch.
+
+(* ---- what Model/PairwiseLegacy.v and Model/OverlapBases.v MEAN ---- *)
+Theorem C13_legacy_summary_formula (cb cb0 N : Q) :
+  (0 < N)%Q ->
+  let p := (cb / N)%Q in let p0 := (cb0 / N)%Q in
+  (0 < p * (1 - p) / N + p0 * (1 - p0) / N)%Q ->
+  summary_tabs (Fin cb) (Fin N) (Fin cb0) (Fin N) =x=
+  Fin ((p - p0) * Qabs.Qabs (p - p0) / (p * (1 - p) / N + p0 * (1 - p0) / N))%Q.
+Proof. exact (summary_tabs_formula cb cb0 N). Qed.
+Print Assumptions C13_legacy_summary_formula.
+
+Theorem C13_legacy_scale_formula (m v n m0 v0 n0 : Q) :
+  ~ (n == 0)%Q -> ~ (n0 == 0)%Q -> ~ (n0 + n - 2 == 0)%Q ->
+  (0 < qpool n v n0 v0)%Q -> (0 < 1 / n0 + 1 / n)%Q ->
+  scale_tabs (Fin m) (Fin v) (Fin n) (Fin m0) (Fin v0) (Fin n0) =x=
+  Fin ((m - m0) * Qabs.Qabs (m - m0) / (qpool n v n0 v0 * (1 / n0 + 1 / n)))%Q.
+Proof. exact (scale_tabs_formula m v n m0 v0 n0). Qed.
+Print Assumptions C13_legacy_scale_formula.
+
+Theorem C13_legacy_scale_df (n n0 : Q) : scale_df (Fin n) (Fin n0) =x= Fin (n0 + n - 2)%Q.
+Proof. exact (scale_df_fin n n0). Qed.
+Print Assumptions C13_legacy_scale_df.
+
+Theorem C13_legacy_scale_df_sym n n0 : scale_df n0 n =x= scale_df n n0.
+Proof. exact (scale_df_sym n n0). Qed.
+Print Assumptions C13_legacy_scale_df_sym.
+
+Theorem C13_legacy_valid_counts_all_valid nv M nr j :
+  (forall i, i < nr -> is_nan (vnth nv i) = false) ->
+  valid_counts nv M nr j = xsum (map (fun i => mnth M i j) (seq 0 nr)).
+Proof. exact (valid_counts_all_valid nv M nr j). Qed.
+Print Assumptions C13_legacy_valid_counts_all_valid.
+
+Theorem C13_legacy_where_def alpha ol pv tv n j :
+  In j (legacy_where alpha ol pv tv n) <->
+  j < n /\ xltb (pv j) alpha = true /\ (ol = true -> xltb (tv j) (Fin 0%Q) = true).
+Proof. exact (legacy_where_spec alpha ol pv tv n j). Qed.
+Print Assumptions C13_legacy_where_def.
+
+Theorem C13_legacy_where_self_excluded alpha pv tv n c :
+  tv c = Fin 0%Q \/ tv c = NaN -> ~ In c (legacy_where alpha true pv tv n).
+Proof. exact (legacy_where_self_excluded_t alpha pv tv n c). Qed.
+Print Assumptions C13_legacy_where_self_excluded.
+
+(* the witness of the open finding C05-scale-mean-pairwise-hidden, as the model (= the code) computes it:
+   CAT(values 1, 2, 3) x CAT, counts [[4,1],[1,1],[1,4]], column scale means 3/2, 5/2 *)
+Example C13_legacy_example :
+  let M := [[Fin 4%Q; Fin 1%Q]; [Fin 1%Q; Fin 1%Q]; [Fin 1%Q; Fin 4%Q]] in
+  let nv := [Fin 1%Q; Fin 2%Q; Fin 3%Q] in
+  let means := [Fin (3#2)%Q; Fin (5#2)%Q] in
+  (* all three rows displayed: n = 6, 6; variances 7/12; t^2 = 36/7 (t = 2.2678), df = 10 *)
+  valid_counts nv M 3 0 =x= Fin 6%Q /\
+  vnth (scale_t means [Fin (7#12)%Q; Fin (7#12)%Q] (valid_counts nv M 3) 0) 1 =x= Fin (36#7)%Q /\
+  vnth (scale_dfs 2 (valid_counts nv M 3) 0) 1 =x= Fin 10%Q /\
+  (* row 2 hidden: the displayed counts give n = 5, 5, variances 13/20: t^2 = 50/13 (t = 1.9612), df = 8 *)
+  (let M' := [[Fin 4%Q; Fin 1%Q]; [Fin 1%Q; Fin 4%Q]] in
+   let nv' := [Fin 1%Q; Fin 3%Q] in
+   vnth (scale_t means [Fin (13#20)%Q; Fin (13#20)%Q] (valid_counts nv' M' 2) 0) 1 =x= Fin (50#13)%Q /\
+   vnth (scale_dfs 2 (valid_counts nv' M' 2) 0) 1 =x= Fin 8%Q) /\
+  (* a row without a numeric value does not count *)
+  valid_counts [Fin 1%Q; NaN; Fin 3%Q] M 3 0 =x= Fin 5%Q /\
+  (* the summary test: shares 30/100 against 50/100 *)
+  vnth (summary_t [Fin 50%Q; Fin 30%Q] (fun _ => Fin 100%Q) 0) 1 =x= Fin ((-200) # 23)%Q /\
+  vnth (summary_df [Fin 50%Q; Fin 30%Q] 0) 1 =x= Fin 78%Q /\
+  legacy_where (Fin (5#100)%Q) true (vnth [Fin 1%Q; Fin (1#100)%Q; Fin (1#100)%Q]) (vnth [Fin 0%Q; Fin (-4)%Q; Fin 9%Q]) 3 = [1].
+Proof. vm_compute. repeat split; reflexivity. Qed.
+
+Theorem C13_overlap_slice_mr_table ndim k T idx : 3 <= ndim ->
+  overlap_slice ndim true k T idx = T (k :: 0 :: idx).
+Proof. exact (overlap_slice_mr_table ndim k T idx). Qed.
+Print Assumptions C13_overlap_slice_mr_table.
+
+Theorem C13_overlap_slice_cat_table ndim k T idx : 3 <= ndim ->
+  overlap_slice ndim false k T idx = T (k :: idx).
+Proof. exact (overlap_slice_cat_table ndim k T idx). Qed.
+Print Assumptions C13_overlap_slice_cat_table.
+
+Theorem C13_overlap_slice_2d ndim tmr k T : ndim < 3 -> overlap_slice ndim tmr k T = T.
+Proof. exact (overlap_slice_2d ndim tmr k T). Qed.
+Print Assumptions C13_overlap_slice_2d.
+
+Theorem C13_overlap_valid_excludes_missing V ncat r a b :
+  cm_valid V ncat 3 r a b =
+  xsumn ncat (fun c => xadd (V [c; a; 0; b]) (xadd (V [c; a; 1; b]) (Fin 0%Q))).
+Proof. exact (cm_valid_excludes_missing V ncat r a b). Qed.
+Print Assumptions C13_overlap_valid_excludes_missing.
+
+Theorem C13_overlap_mr_selected_planes O r a b :
+  mm_selected O 3 r a b = xadd (O [r; 0; a; 0; b]) (xadd (O [r; 1; a; 0; b]) (Fin 0%Q)).
+Proof. exact (mm_selected_planes O r a b). Qed.
+Print Assumptions C13_overlap_mr_selected_planes.
+
+End GenAgreeOverlapBases_C13.
+(* ==== GenAgree (pairwise translator): END ==== *)
 
 (* ---- WIRING-APPENDIX:BEGIN (generated by tools/gen_wiring_props.py; do not edit) ---- *)
 From CC Require Proofs.GenAgreeWiring_C13.
